@@ -78,14 +78,18 @@ def build(system, spec):
     sensors = []
     nproc = [0]
 
+    def nm(d):
+        # default names ("Source_<id>") when the spec asks for them: the name then depends on the id counter
+        return None if (spec.get('defnames') and d['k'] in ('S', 'P', 'H', 'B', 'K')) else d['n']
+
     def mk(d):
         k = d['k']
         up = [D[u] for u in d.get('up', [])]
         if k == 'S':
-            o = Source(d['n'], Gen(d['n'] + 'p', d.get('val', 0), d.get('batch'), generated,
+            o = Source(nm(d), Gen(d['n'] + 'p', d.get('val', 0), d.get('batch'), generated,
                                    Pallet if d.get('pallet') else None), d['c'], num(d['budget']))
         elif k == 'P':
-            o = WP(d['n'], up, d['c'], resources_for_processing=d.get('res'))
+            o = WP(nm(d), up, d['c'], resources_for_processing=d.get('res'))
             o.model = holder
             o.wo_dur, o.wo_cap, o.wo_cost = d.get('wod', 1.5), d.get('wocap', 1), d.get('wocost', 2)
             if d.get('alt') is not None:
@@ -104,13 +108,13 @@ def build(system, spec):
                                             1 + nproc[0] % 2, 'os_' + d['n'], data_capacity=5))
             nproc[0] += 1
         elif k == 'H':
-            o = PartHandler(d['n'], up, d['c'])
+            o = PartHandler(nm(d), up, d['c'])
             if d.get('alt') is not None:
                 o.base_cycle, o.alt_cycle = d['c'], d['alt']
                 o.add_receive_part_callback(toggle_cycle)
         elif k == 'B':
             cap = num(d.get('cap', 'inf'))
-            o = Buffer(d['n'], up, d['c'], None if cap == INF else cap)
+            o = Buffer(nm(d), up, d['c'], None if cap == INF else cap)
         elif k == 'BA':
             o = PartBatcher(d['n'], up, output_batch_size=d['size'])
         elif k == 'G':
@@ -121,7 +125,7 @@ def build(system, spec):
         elif k == 'GP':
             o = D[d['g']].get_new_group_path(d['n'], up)
         elif k == 'K':
-            o = Sink(d['n'], up, d['c'], collect_parts=True)
+            o = Sink(nm(d), up, d['c'], collect_parts=True)
         D[d['n']] = o
 
     for g in spec.get('groups', []):
@@ -165,27 +169,40 @@ def simulation(system, index, spec, durations, seed):
 # ----------------------------------------------------------------------------------- normalisation
 def normalise(system):
     sd = system.simulation_data
+    out = {}
+    v = system.verif
+    # devices with default names are called by their role in the model
+    ren = {o.name: role for role, o in v['D'].items() if isinstance(getattr(o, 'name', None), str)}
+
+    import re as _re
+    defaults = {a: r for a, r in ren.items() if a != r}
+    pat = _re.compile(r'\b(' + '|'.join(_re.escape(a) for a in sorted(defaults, key=len, reverse=True)) + r')\b') \
+        if defaults else None
+
+    def rn(x):
+        # also inside labels such as "work order - tag:None target:WP_40"
+        if not isinstance(x, str):
+            return x
+        return pat.sub(lambda m: defaults[m.group(1)], x) if pat is not None else x
     seen = []
     for lab in ID_LABELS:
         for nm, recs in sd.get(lab, {}).items():
             for i, r in enumerate(recs):
                 if r[1] is not None:
-                    seen.append((r[0], lab, nm, i, r[1]))
+                    seen.append((r[0], lab, rn(nm), i, r[1]))
     rank = {}
     for (_, _, _, _, pid) in sorted(seen, key=lambda x: x[:4]):
         rank.setdefault(pid, len(rank))
-    out = {}
     for lab, d in sd.items():
         for nm, recs in d.items():
             if lab in ID_LABELS:
-                out[f'{lab}/{nm}'] = [(r[0], rank.get(r[1])) + tuple(r[2:]) for r in recs]
+                out[f'{lab}/{rn(nm)}'] = [(r[0], rank.get(r[1])) + tuple(rn(x) for x in r[2:]) for r in recs]
             else:
-                out[f'{lab}/{nm}'] = list(recs)
-    v = system.verif
+                out[f'{lab}/{rn(nm)}'] = [tuple(rn(x) for x in r) if isinstance(r, tuple) else r for r in recs]
     for name, o in v['D'].items():
         if not isinstance(o, PartFlowController):
             continue
-        st = {'value': o.value, 'history': list(o.value_history)}
+        st = {'value': o.value, 'history': [tuple(rn(x) for x in h) for h in o.value_history]}
         if isinstance(o, Sink):
             st['count'] = o.received_parts_count
             st['collected'] = [p.name for cp in o.collected_parts for p in leaves(cp)]
@@ -196,7 +213,7 @@ def normalise(system):
         if isinstance(o, PartProcessor):
             st['uptime'], st['util'], st['up'] = o.uptime, o.utilization_time, o.is_operational()
         out['state/' + name] = st
-    out['state/maint'] = {'value': v['maint'].value, 'history': list(v['maint'].value_history),
+    out['state/maint'] = {'value': v['maint'].value, 'history': [tuple(rn(x) for x in h) for h in v['maint'].value_history],
                           'available': v['maint'].available_capacity}
     import re
 
@@ -208,6 +225,13 @@ def normalise(system):
     rm = system.resource_manager
     out['pools'] = {r: (rm.get_resource_usage(r), rm.get_resource_capacity(r)) for r in sorted(rm._resources)}
     out['now'] = system.env.now
+
+    def aname(a):
+        return getattr(a, '__name__', None) or getattr(getattr(a, 'func', None), '__name__', None) or type(a).__name__
+    # the final state includes what is still scheduled (ids left out: they are the documented id-dependent part)
+    out['queue'] = sorted((e.time, float(e.event_type), aname(e.action)) for e in system.env._events if not e.cancelled)
+    out['paused'] = sorted((e.time, float(e.event_type), aname(e.action)) for e in system.env._paused_events
+                           if not e.cancelled)
     out['net'] = system.get_net_value_of_assets()
     return out
 
@@ -220,7 +244,9 @@ def diff(a, b):
 
 
 # ------------------------------------------------------------------------------------- relations
-def run_seeded(spec, durations, seed, index=0, id_offset=0):
+def run_seeded(spec, durations, seed, index=0, id_offset=0, id_base=None):
+    if id_base is not None:
+        Asset._id_counter = id_base       # as if exactly that many assets had been created before in this process
     Asset._id_counter += id_offset
     s = System()
     simulation(s, index, spec, durations, seed)
@@ -265,7 +291,7 @@ def check(case):
     info = {'tie_sensitive': False, 'mode': mode}
     if mode == 'seed':
         A = run_seeded(spec, [T], seed)
-        B = run_seeded(spec, [T], seed, id_offset=case.get('id_offset', 0))
+        B = run_seeded(spec, [T], seed, id_offset=case.get('id_offset', 0), id_base=case.get('id_base'))
         d = diff(A, B)
         if d:
             raise Violation('C14.same-seed', f'two runs with the same seed (second one after {case.get("id_offset", 0)} '
